@@ -1020,17 +1020,18 @@ func (c *StructConverter) To(obj Object) (interface{}, error) {
 	switch obj := obj.(type) {
 	case *Proxy:
 		// Return the object wrapped by the proxy
-		if c.isValueType {
-			ptr := reflect.ValueOf(obj.obj)
-			if ptr.Kind() != reflect.Ptr {
-				return obj.obj, nil // the proxy wraps a struct value already
-			}
+		wrapped := obj.obj
+		if ptr := reflect.ValueOf(wrapped); c.isValueType && ptr.Kind() == reflect.Ptr {
 			if ptr.IsNil() {
 				return nil, errz.TypeErrorf("type error: cannot use a nil %s as a %s value", obj.typ.Name(), c.typ)
 			}
-			return ptr.Elem().Interface(), nil
+			wrapped = ptr.Elem().Interface()
 		}
-		return obj.obj, nil
+		// The proxy may wrap a value of some other type
+		if t := reflect.TypeOf(wrapped); t == nil || !t.AssignableTo(c.typ) {
+			return nil, errz.TypeErrorf("type error: expected %s (%s given)", c.typ, obj.typ.Name())
+		}
+		return wrapped, nil
 	case *Map:
 		// Create a new struct. The "value" here is a pointer to the new struct.
 		value := c.goType.New()
